@@ -20,9 +20,8 @@ theorem polyElem_cases (keep se : Bool) (a w : Area) (c n : Nat) :
     fixPolygonElement keep se a c n w = none ∨ fixPolygonElement keep se a c n w = some (.atom .polygon false) ∨
     fixPolygonElement keep se a c n w = some (.atom .polygon true) ∨
     fixPolygonElement keep se a c n w = some (.atom .multiPolygon false) ∨
-    (keep = true ∧ (fixPolygonElement keep se a c n w = some (.atom .point false) ∨ fixPolygonElement keep se a c n w = some (.atom .lineString false) ∨
-      fixPolygonElement keep se a c n w = some (.atom .lineString true))) := by
-  unfold fixPolygonElement fixLineString
+    (keep = true ∧ (fixPolygonElement keep se a c n w = some (.atom .point false) ∨ fixPolygonElement keep se a c n w = some (.atom .lineString false))) := by
+  unfold fixPolygonElement
   rcases lineElem_cases keep se c with h | h | ⟨hk, h⟩ <;> rw [h] <;> cases a <;> cases w <;> split_ifs <;> simp_all [Area.res]
 
 theorem fixList_eq_map (l : List Shape) : fixList l = l.map (fix false) := by
